@@ -6,5 +6,6 @@
      CollateRank.v    termination, purity, total preorder of rank (C07 a-d, f)
      CollateRank2.v   sequences, prefixes, maps, insertion-order independence (C07 d, e)
      CollateCompare.v compare: termination, purity, depth panic, agreement with rank (C08)
+     CollateDeep.v    the depth panic for every over-deep value; maps equal in any insertion order
    This file re-exports them. *)
-From Verif Require Export CollateOrd CollateSort CollateBase CollateRank CollateRank2 CollateCompare.
+From Verif Require Export CollateOrd CollateSort CollateBase CollateRank CollateRank2 CollateCompare CollateDeep.
